@@ -365,6 +365,16 @@ func (b *Reader) Reset(data []byte) {
 	b.depth = 0
 }
 
+// CheckLength rejects a container length that the remaining input cannot
+// hold: negative, or more elements than fit when every element takes at
+// least minSize bytes.  To be called before a slice of length elements is made.
+func (b *Reader) CheckLength(length int32, minSize int) error {
+	if length < 0 || int64(length)*int64(minSize) > int64(b.buf.Len()) {
+		return fmt.Errorf("invalid length %d, %d bytes remaining", length, b.buf.Len())
+	}
+	return nil
+}
+
 //go:nosplit
 func (b *Reader) readHead() (ty, tag byte, err error) {
 	data, err := b.buf.ReadByte()
